@@ -617,6 +617,16 @@ CAMLprim value vp_fileset_init(value path, value interval, value mclos, value nf
 	mtbl_fileset_options_destroy(&fo);
 	return mk_ptr(f);
 }
+/* a fileset without merge function, with a dupsort function (kind 1 ascending / 2 descending on values) */
+CAMLprim value vp_fileset_init_dupsort(value path, value interval, value kind)
+{
+	struct mtbl_fileset_options *fo = mtbl_fileset_options_init();
+	mtbl_fileset_options_set_reload_interval(fo, (uint32_t) Long_val(interval));
+	mtbl_fileset_options_set_dupsort_func(fo, vp_dupsort_func, (void *)(intptr_t) Long_val(kind));
+	struct mtbl_fileset *f = mtbl_fileset_init(String_val(path), fo);
+	mtbl_fileset_options_destroy(&fo);
+	return mk_ptr(f);
+}
 CAMLprim value vp_fileset_dup(value orig, value interval, value mclos, value nf, value rf)
 {
 	struct mtbl_fileset_options *fo = vp_fs_opts(interval, mclos, nf, rf);
